@@ -896,7 +896,9 @@ def o_sliced(case, T):
     for (i, j) in ((0, 0), (nx, 0), (0, ny), (nx, ny)):
         p, q = E * (i, j), B * (i, j)
         d = math.hypot(p[0] - q[0], p[1] - q[1]) / px
-        require(d <= 1e-6 * max(nx, ny), "array sliced with [%d::%d, %d::%d] before the write: raster corner (%d,%d) is %.4g px from where the original grid's pixel centres put it "
+        # the step is read off float64 coordinate labels: their rounding (ulp of the coordinate, in pixels) counts too
+        mag = max(abs(v) for v in (*(E * (0, 0)), *(E * (nx, ny))))
+        require(d <= 1e-6 * max(nx, ny) + 16 * 2.3e-16 * mag / px * max(nx, ny), "array sliced with [%d::%d, %d::%d] before the write: raster corner (%d,%d) is %.4g px from where the original grid's pixel centres put it "
                 "(file transform %r, expected %r)", oy, ky, ox, kx, i, j, d, tuple(B)[:6], tuple(E)[:6])
     require(same_pixels(pix, sub), "sliced input: pixels differ: %s", first_diff(pix, sub) if pix.dtype == sub.dtype else f"dtype {pix.dtype}")
     rot = not gbox.axis_aligned
